@@ -863,6 +863,19 @@ def c11_laws(a):
     eq(u + v, v + u, "addition is not commutative")
     eq((u + v) + w, u + (v + w), "addition is not associative")
     eq((u + v) - v, u, "subtraction does not invert addition")
+    # the in-place spellings are the same operations (the object keeps its own stored system; skipped where the intermediate value is
+    # not representable in it: tau storage cannot hold a non-causal difference)
+    if not (d == 4 and a["s1"][-1] == "tau"):
+        w1 = vec(a["s1"], a["p1"])
+        w1 += v
+        eq(w1, u + v, "`+=` is not `+`")
+        w1 -= v
+        eq(w1, u, "`+=` followed by `-=` of the same vector does not give the vector back")
+        w2 = vec(a["s1"], a["p1"])
+        w2 -= v
+        eq(w2, u - v, "`-=` is not `-`")
+        w2 *= k
+        eq(w2, (u - v) * k, "`*=` is not `*`")
     if d < 4 or True:
         eq((u + v) * k, u * k + v * k, "scaling does not distribute over addition")
         eq((u * k) * k2, u * (k * k2), "scaling does not compose multiplicatively")
